@@ -27,7 +27,10 @@ type AbsEnv struct {
 	// AtomEnv is like Atom but receives the environment that evaluates the expression
 	// (the callee's, when a call was inlined), so that it can fold sub-expressions there.
 	AtomEnv func(en *AbsEnv, e ast.Expr) (constant.Value, bool)
-	depth   int
+	// RangeOver, if set, gives the elements of a ranged-over expression; the loop is then
+	// unrolled over exactly those elements (the rule supplies a small model list).
+	RangeOver func(e ast.Expr) ([]constant.Value, bool)
+	depth     int
 }
 
 type absResult struct {
@@ -290,7 +293,27 @@ func (env *AbsEnv) stmt(s ast.Stmt) (absResult, bool) {
 	switch s := s.(type) {
 	case *ast.DeferStmt:
 		return absResult{}, false
-	case *ast.ForStmt, *ast.RangeStmt:
+	case *ast.RangeStmt:
+		if env.RangeOver != nil {
+			if elems, ok := env.RangeOver(s.X); ok {
+				for i, el := range elems {
+					if id, ok := s.Key.(*ast.Ident); ok && id.Name != "_" {
+						env.Locals[env.Info.ObjectOf(id)] = constant.MakeInt64(int64(i))
+					}
+					if id, ok := s.Value.(*ast.Ident); ok && id.Name != "_" {
+						env.Locals[env.Info.ObjectOf(id)] = el
+					}
+					if r, done := env.stmts(s.Body.List); done {
+						return r, true
+					}
+				}
+				return absResult{}, false
+			}
+		}
+		if env.SkipLoops {
+			return absResult{}, false
+		}
+	case *ast.ForStmt:
 		if env.SkipLoops {
 			return absResult{}, false
 		}
